@@ -67,6 +67,10 @@ static void check_status_result(const char *what, int r, int api)
   struct vk_child *c = CH;
   char key[120];
   snprintf(key, sizeof key, "h_c01|op=%s", what);
+  if (r >= 0 && c && c->state == CH_REAPED && c->reaps == 0) {
+    vk_violation("C01", "status-invented", key, "%s returned status %d although the child was reaped by somebody else (waitpid answered ECHILD): the library cannot know its status", what, r);
+    return;
+  }
   if (r >= 0) {
     if (!c || (c->state != CH_REAPED)) {
       vk_violation("C01", "status-while-running", key, "%s returned status %d but the child (state %d) has not been reaped", what, r,
@@ -93,6 +97,7 @@ static void check_status_result(const char *what, int r, int api)
       if (S->ev[i].api == api && S->ev[i].injected > 0 && S->ev[i].side == 0) inj = &S->ev[i];
     if (r == REPROC_ETIMEDOUT) { vk_hit(CL_TIMEOUT_SEEN); return; }
     if (inj && r == -inj->injected) { vk_hit(CL_FAULT_SURFACED); return; }
+    if (c && c->state == CH_REAPED && c->reaps == 0) return; /* reaped by somebody else earlier: no status can ever be had, any error will do */
     vk_violation("C01", "unexpected-error", key, "%s returned %s with no timeout and no failing call behind it", what, hx_errname(r));
   }
 }
@@ -132,6 +137,7 @@ static void c01_run(int tier, long cfg)
     vk_cfg.faults_on = 1;
     vk_cfg.fault_bound = 1;
     vk_cfg.fault_calls = (1ull << C_WAITPID) | (1ull << C_POLL) | (1ull << C_KILL);
+    vk_cfg.foreign_reaper = 1;
   }
   char hs[100] = "";
   for (int i = 0; i < nops; i++) { strcat(hs, op_names[ops[i]]); strcat(hs, i + 1 < nops ? "," : ""); }
@@ -229,7 +235,8 @@ static void c01_run(int tier, long cfg)
   vk_cfg.sched_on = 0;
   r = hx_wait(P, REPROC_INFINITE);
   check_status_result("final wait(INFINITE)", r, hx_last_api);
-  if (r < 0) vk_violation("C01", "final-wait", "h_c01", "wait(INFINITE) on an ended child returned %s", hx_errname(r));
+  int foreign = CH->state == CH_REAPED && CH->reaps == 0;
+  if (r < 0 && !foreign) vk_violation("C01", "final-wait", "h_c01", "wait(INFINITE) on an ended child returned %s", hx_errname(r));
   r = hx_wait(P, 0);
   check_status_result("repeated wait(0)", r, hx_last_api);
   reproc_stop_actions a = { { REPROC_STOP_TERMINATE, 0 }, { REPROC_STOP_KILL, 0 }, { REPROC_STOP_NOOP, 0 } };
@@ -237,7 +244,8 @@ static void c01_run(int tier, long cfg)
   check_status_result("repeated stop{terminate 0,kill 0}", r, hx_last_api);
   vk_cfg.sched_on = sched_save;
   hx_destroy(P);
-  if (CH->reaps != 1) vk_violation("C01", "reaped-once", "h_c01", "the child was reaped %d times", CH->reaps);
+  if (foreign) { /* nothing left for the library to reap */ }
+  else if (CH->reaps != 1) vk_violation("C01", "reaped-once", "h_c01", "the child was reaped %d times", CH->reaps);
   else vk_hit(CL_REAPED_ONCE);
   siginfo_t si;
   memset(&si, 0, sizeof si);
